@@ -200,6 +200,39 @@ def run_fmt(ctx):
             ctx.finding("t3/format-drift", "formatter model and real formatter print different text",
                         {"text": t, "real": a.get("out"), "model": b.get("out"), "broken": "correspondence T3/format",
                          "property_fails_on_real": problems}, bool(problems))
+    if ctx.prop == "C10":
+        # the same two claims through the entry point users format files with: `format -f` of a spread-out layout (so that the
+        # formatted text is SHORTER than the file) leaves exactly the canonical text, and a second `format -f` changes nothing
+        hbin, cbin = build_harness()
+        d = scratch()
+        try:
+            rng2 = random.Random(ctx.seed + 11)
+            picked = [i for i in idx if not info[i].get("lexErrors")][: (12 if ctx.tier == "quick" else 150)]
+            for i in picked:
+                want = ys[i]
+                wide = textgen.relayout(texts[i], rng2) + "\n\n\n"
+                r0 = harness.run_ops([{"op": "format", "text": wide}])[0]
+                if not r0.get("ok"):
+                    continue
+                f = os.path.join(d, "w.dsl")
+                with open(f, "w", encoding="utf-8", newline="") as fh:
+                    fh.write(wide)
+                rc1, _, _ = cli(cbin, ["format", "-f", f], d)
+                first = open(f, encoding="utf-8", newline="").read()
+                rc2, _, _ = cli(cbin, ["format", "-f", f], d)
+                second = open(f, encoding="utf-8", newline="").read()
+                ctx.count("format_f_files")
+                if rc1 != 0 or first != r0["out"]:
+                    ctx.finding("fmt/file/not-canonical", "`format -f` of a re-laid-out file leaves a text that is not the formatter's result (exit %d)" % rc1,
+                                {"text": wide, "file_after": first[:3000], "library": r0["out"][:3000]})
+                elif rc2 != 0 or second != first:
+                    # only a claim when the library result itself is stable (known comment findings are not this check's business)
+                    r1 = harness.run_ops([{"op": "format", "text": first}])[0]
+                    if r1.get("ok") and r1.get("out") == first:
+                        ctx.finding("fmt/file/not-idempotent", "a second `format -f` changes the file (exit %d)" % rc2,
+                                    {"text": wide, "first": first[:3000], "second": second[:3000]})
+        finally:
+            rm(d)
     if ctx.broken and not ctx.violations:
         ctx.finding("obligation/" + ctx.prop, "; ".join(ctx.broken)[:500], {"broken": ctx.broken}, False)
     ctx.cov.update({"evaluations": ctx.cov.get("texts", 0), "distinct_nontrivial": len(set(texts)),
@@ -358,6 +391,25 @@ def run_c11(ctx):
             ctx.assumptions.append("libpacketdsl.so could not be built in this run: the C export was not exercised")
     finally:
         rm(d)
+    # "never hang" for the generators: a packet that holds the next one twice, d levels deep, is a valid protocol of d + 1 packets.
+    # A generator that expands a referenced packet once per REFERENCE prints 2^d of something; measured on the size of the output
+    # at two small depths (deterministic), not on time: linear growth is x1.5 from depth 8 to 12, doubling per level is x16.
+    def pairs(n):
+        return ("root packet Q0 {\n    Q1 bid,\n    Q1 ask,\n}\n" +
+                "".join("packet Q%d {\n    Q%d bid,\n    Q%d ask,\n}\n" % (i, i + 1, i + 1) for i in range(1, n)) + "packet Q%d {\n    u8 x,\n}\n" % n)
+    sizes = {}
+    for depth in (8, 12):
+        g = harness.run_ops([{"op": "gen", "text": pairs(depth), "order": pipeline.ALL_TARGETS, "fresh": True}])[0]
+        for r in g.get("runs", []):
+            if "files" in r:
+                sizes.setdefault(r["lang"], {})[depth] = sum(len(v) for v in r["files"].values())
+    for lang, sz in sorted(sizes.items()):
+        ctx.count("growth_measured")
+        if 8 in sz and 12 in sz and sz[12] > 6 * sz[8]:
+            ctx.finding("gen/output-exponential-in-depth/%s" % lang,
+                        "the %s output for a chain of packets that hold their successor twice grows x%.1f from depth 8 to depth 12 (%d -> %d bytes): "
+                        "at depth 40 the compilation does not end" % (lang, sz[12] / sz[8], sz[8], sz[12]),
+                        {"dsl": pairs(12), "target": lang, "sizes": sz})
     if ctx.broken and not ctx.violations:
         ctx.finding("obligation/C11", "; ".join(ctx.broken)[:500], {"broken": ctx.broken}, False)
     ctx.sample({"input_kinds": sorted({k for k, _ in items})[:20]})
